@@ -555,8 +555,8 @@ def canary(eng):
 
 
 def replay(o, tree):
-    r_ = structure.replay(o, tree)
-    if r_ is not None:
+    r_ = None if o.get("_shared_replay") else structure.replay(dict(o, _shared_replay=True), tree)
+    if r_ is not None and r_.get("reproduced"):
         return r_
     if (o.get("cfg") or {}).get("kind") == "dispatch":
         pairs = [("x = 5\nx\n", "x = 5\n.word x\n"), ("x = 5\nx, 1\n", "x = 5\n.word x, 1\n"), ("WORD 1, 2\n", ".word 1, 2\n"), ("MoV #1, R0\n", "mov #1, r0\n"),
